@@ -61,9 +61,9 @@ Pass(S) == [n |-> S.inn, h |-> S.inh, b |-> S.in]   \* pass-through: the bytes w
 ByCT(S) == S.ct # ""
 Sel(S) == IF ByCT(S) THEN S.wct ELSE S.wxt          \* plain call with the mediatype the rule selects
 Minifies(S) == Sel(S).e # "notexist"
-\* Content-Type present but without a minifier while the extension has one: the sentence can be read
-\* either way (fall back, or pass through), so both outcomes are accepted
-Ambiguous(S) == ByCT(S) /\ S.wct.e = "notexist" /\ S.wxt.e # "notexist"
+\* Content-Type present but without a minifier: the Content-Type still decides (the extension is the fallback only
+\* when there is no Content-Type; README: "or, if the header is empty, by the request URI file extension"), so the
+\* body passes through even if the extension has a minifier
 \* what the plain reader-to-writer call produces for this session
 Ref(S) == IF S.mode \in RespModes
           THEN IF S.nwrite = 0 THEN Nothing(S) ELSE IF Minifies(S) THEN Sel(S) ELSE Pass(S)
@@ -71,9 +71,7 @@ Ref(S) == IF S.mode \in RespModes
 RefErr(S) == IF S.mode \in RespModes
              THEN (IF S.nwrite = 0 \/ ~Minifies(S) THEN [e |-> "nil", t |-> ""] ELSE [e |-> Sel(S).e, t |-> Sel(S).t])
              ELSE [e |-> S.want.e, t |-> S.want.t]
-Delivered(s, S) == IF S.mode \in RespModes /\ Ambiguous(S) /\ S.nwrite > 0
-                   THEN Same(s, Pass(S), S) \/ Same(s, S.wxt, S)
-                   ELSE Same(s, Ref(S), S)
+Delivered(s, S) == Same(s, Ref(S), S)
 HasWorker(s, S) == S.mode = "writer" \/ (S.mode \in RespModes /\ s.sel = "select")
 If(cond, name) == IF cond THEN {} ELSE {name}
 
@@ -112,9 +110,9 @@ FinalBad(s, S) ==
          \cup If(S.after => s.close2, "CloseReturned: second Close did not return")
          \cup If(FF(S) => Delivered(s, S),
                  "SelectionRule/ChunkingInvariance: response body differs from the plain call with the selected mediatype")
-         \cup If(FF(S) /\ S.mode = "response" /\ ~Ambiguous(S) => (s.closee = r.e /\ s.closet = r.t),
+         \cup If(FF(S) /\ S.mode = "response" => (s.closee = r.e /\ s.closet = r.t),
                  "CloseWaits: Close result differs from the plain call's error")
-         \cup If(FF(S) /\ S.mode = "mwerr" /\ ~Ambiguous(S) =>
+         \cup If(FF(S) /\ S.mode = "mwerr" =>
                     IF r.e = "nil" THEN ~s.errfunc ELSE (s.errfunc /\ s.erre = r.e /\ s.errt = r.t),
                  "CloseWaits: MiddlewareWithError did not hand the minifier's error to the error function")
          \* C12 "the middleware removes a stale Content-Length": committed length absent, or not stale
